@@ -147,6 +147,11 @@ def main(argv=None) -> int:
                 futs.append(ex.submit(run_refactoring, name, props))
         for f in futs:
             results.append(f.result())
+    # unit cases of the normal forms: pairs that must / must not get the same fingerprint
+    import subprocess
+    fc = subprocess.run([sys.executable, str(VERIF / "selftest" / "fingerprint_cases.py")], capture_output=True, text=True)
+    print(fc.stdout.strip())
+    results.append(dict(name="fingerprint-cases", kind="twin", status="silent" if fc.returncode == 0 else "FIRED", results={"cases": fc.stdout[-400:]}))
     bad = [r for r in results if r["status"] in ("MISSED", "FIRED")]
     na = [r for r in results if r["status"] == "not-applicable"]
     for r in results:
